@@ -157,10 +157,18 @@ pub struct ScriptDecoder {
 	/// fail the k-th call (1-based, decode and seek calls counted together); 0 = never
 	pub fail_at: usize,
 	pub calls: usize,
+	/// what a decode call past the end of the stream gives: 0 = one silent frame (lenient), 1 = an error, 2 = an empty chunk
+	/// (kira never asks for it: `frame_at_index` answers indices >= num_frames itself)
+	pub eos: u8,
 	pub stats: Arc<DecStats>,
 }
 
 impl ScriptDecoder {
+	pub fn with_eos(mut self, eos: u8) -> Self {
+		self.eos = eos;
+		self
+	}
+
 	pub fn new(len: usize, packets: Vec<usize>, seek_early: usize, fail_at: usize) -> (Self, Arc<DecStats>) {
 		let stats: Arc<DecStats> = Default::default();
 		(
@@ -172,6 +180,7 @@ impl ScriptDecoder {
 				seek_early,
 				fail_at,
 				calls: 0,
+				eos: 0,
 				stats: stats.clone(),
 			},
 			stats,
@@ -200,8 +209,12 @@ impl Decoder for ScriptDecoder {
 		self.pos = end;
 		self.stats.produced.fetch_add(v.len(), Ordering::SeqCst);
 		if v.is_empty() {
-			// past the end: a real decoder would report end of stream; give silence so callers terminate
-			return Ok(vec![Frame::ZERO]);
+			// past the end: a real decoder reports end of stream one way or another
+			return match self.eos {
+				1 => Err(format!("asked to decode past the end of the stream: scripted failure at call {}", self.calls)),
+				2 => Ok(vec![]),
+				_ => Ok(vec![Frame::ZERO]),
+			};
 		}
 		Ok(v)
 	}
